@@ -161,44 +161,38 @@ Proof.
   apply existsb_exists in D. destruct D as (e & He & Ke). exists e. split; [exact He | apply Z.eqb_eq; exact Ke].
 Qed.
 
-(* (2) hang: 2 generator instances, 1 item, a serial sink that throws.  The first instance and the throwing task run before the
-   second instance is popped; the cancelled wrapper skips the second instance, whose CompletionGuard therefore never counts the
-   latch down: the caller sleeps in completion_->wait(0) for ever. *)
+(* (2) REPAIRED (/repo 1a07319), former witness of "pipeline() never returns": 2 generator instances, 1 item, a serial sink that
+   throws.  The second instance is skipped by the cancelled wrapper, but the CompletionGuard it owns by value now counts the latch
+   down when the skipped functor is destroyed: the run returns, rethrowing exception 1000. *)
 Definition c_hang : cfg := CFG 2 64 2 1 (-1) [SC 1 false [] [0]] false [(true, 0)].
 Definition s_hang : state := fst (fst (run_pipe 60 c_hang (repeat 0 60))).
-Lemma hang_facts :
-  result (sh s_hang) = None /\ done (sh s_hang) = false /\ compl (sh s_hang) = 1 /\ bag (sh s_hang) = [] /\ pout (sh s_hang) = 0 /\
-  map th_kind (threads s_hang) = [3; 1] /\ map stack (threads s_hang) = [[FMain MBlocked]; [FWorker true]].
+Lemma hang_fixed :
+  has_throw c_hang = true /\ done (sh s_hang) = true /\ result (sh s_hang) = Some 1000 /\ compl (sh s_hang) = 0 /\
+  existsb (fun e => e_kind e =? 13) (log (sh s_hang)) = true.
 Proof. vm_compute. repeat split; reflexivity. Qed.
-Lemma hang_stuck t ch s' ch' site : mstep c_hang s_hang t ch = Some (s', ch', site) -> s' = s_hang.
-Proof.
-  intros H. destruct t as [|[|[|t]]]; vm_compute in H; try discriminate.
-  injection H as <- _ _. vm_compute. reflexivity.
-Qed.
-Theorem hang_refuted :
-  has_throw c_hang = true /\ reach (mstep c_hang) (init c_hang) s_hang /\ result (sh s_hang) = None /\
-  forall s', reach (mstep c_hang) s_hang s' -> s' = s_hang.
-Proof.
-  split; [reflexivity|]. split; [unfold s_hang; apply run_pipe_reach|]. split; [apply hang_facts|].
-  intros s' R. induction R as [|s t ch s' ch' site R IH E]; [reflexivity|]. subst s. eapply hang_stuck; eauto.
-Qed.
 
-(* (3) escape: poolLoadFactor_ 0 (= a pool loaded by somebody else): the second generator instance runs inline inside execute()
-   on the caller, the generator throws, the exception leaves pipeline() through execute() while the first instance is still queued
-   and references the Pipe objects that are about to be destroyed *)
+(* the general fact behind the repair: in every reachable state of every pipeline the completion latch equals the number of
+   generator instances that have not yet passed their CompletionGuard -- not yet dispatched, queued, popped, running, or skipped
+   with the guard still pending; so a positive latch always has somebody who will count it down *)
+Theorem latch_owned c s : (0 < nstages c)%nat -> reach (mstep c) (init c) s -> compl (sh s) = total (m_genc c) s.
+Proof. intros H0 R. destruct (acct_invariants c s H0 R) as (_ & _ & _ & [G _]). exact G. Qed.
+
+(* (3) REPAIRED (/repo f2764c3), former witness of "the exception leaves pipeline() through execute()": poolLoadFactor_ 0, the second
+   generator instance runs inline inside execute() and the generator throws at once.  The functor now records the exception in the
+   task set; execute() goes on, wait() rethrows it: the run returns with exception 0 and nothing is left in the pool. *)
 Definition c_esc : cfg := CFG 3 0 3 3 0 [SC 1 false [] []] false [(true, 0)].
-Definition s_esc : option state := mrun c_esc [0; 0; 0; 0; 0; 0; 0]%nat (init c_esc).
-Lemma esc_facts :
-  match s_esc with
-  | Some s => map escaping (threads s) = [true; false] /\ pout (sh s) = 1 /\ bag (sh s) = [(0%nat, TGen)] /\ mstep c_esc s 0 [] = None
-  | None => False
-  end.
+Definition s_esc : state := fst (fst (run_pipe 60 c_esc (repeat 0 60))).
+Lemma escape_fixed :
+  has_throw c_esc = true /\ done (sh s_esc) = true /\ result (sh s_esc) = Some 0 /\ pout (sh s_esc) = 0 /\
+  map escaping (threads s_esc) = [false; false].
 Proof. vm_compute. repeat split; reflexivity. Qed.
-Theorem escape_reachable :
-  exists s, reach (mstep c_esc) (init c_esc) s /\ map escaping (threads s) = [true; false] /\ 0 < pout (sh s).
+
+(* the general fact behind the repair: a generator functor never lets an exception out -- whatever it does, the thread is not
+   unwinding afterwards (its own throw and a throw of an inline downstream stage both end in its catch) *)
+Theorem generator_catches c t s th pc r ch s1 th1 ch1 site wake :
+  stack th = FGen pc :: r -> mstep_thread c t s th ch = Some (s1, th1, ch1, site, wake) -> unw th1 = None.
 Proof.
-  pose proof esc_facts as F. destruct s_esc as [s|] eqn:E; [|contradiction]. exists s. destruct F as (A & B & _).
-  split; [eapply mrun_reach; [exact E | apply reach_refl]|]. split; [exact A | lia].
+  intros Hs H. step_cases H th; try discriminate; cbn [unw w_unw w_stack w_depth push]; try reflexivity; try assumption.
 Qed.
 
 Theorem holds_except c s :
